@@ -8,7 +8,7 @@ from mirse import models as MODELS
 
 def plan(t):
     q = t == 'quick'
-    return dict(boundaries=['b', '-b'] if q else ['b', '-b', 'a-b', '--x'], body_lens=(0, 1, 2) if q else (0, 1, 2, 3), two_part_body_lens=(0, 1) if q else (0, 1, 2), name_lens=(1,) if q else (1, 2), value_lens=(1, 2))
+    return dict(boundaries=['b', '-b', 'a-b'] if q else ['b', '-b', 'a-b', '--x'], body_lens=(0, 1, 2) if q else (0, 1, 2, 3), two_part_body_lens=(0, 1) if q else (0, 1, 2), name_lens=(1,) if q else (1, 2), value_lens=(1, 2))
 
 
 def header_name_byte(b): return z3.Or(z3.And(z3.UGE(b, 65), z3.ULE(b, 90)), z3.And(z3.UGE(b, 97), z3.ULE(b, 122)))
